@@ -40,6 +40,7 @@ RULES.update({
              "flatten flag and uses channels*height*width of the previous outputs",
     "R08.5": "axis typing of the size formulas and constructors (no height/width mix-up)",
 })
+RULES["R08.1"] += " | padding-applied-whenever-configured: the pad3d call in Convolution::forward is unconditional or skipped only when both paddings are zero (path condition of the call)"
 
 
 def _subst(x, table):
